@@ -35,6 +35,12 @@ ItemsQ2b == {"r1", "b1", "s1"}
 KindQ2b == ("r1" :> "ra" @@ "b1" :> "bs" @@ "s1" :> "rs")
 ProgQ2b == ("c1" :> <<A("r1"), BS("b1")>> @@ "c2" :> <<S("s1")>>)
 
+\* a reader submitted after a barrier's submission returned, while an earlier reader is in flight
+ItemsQ2m == {"r1", "b1", "s1"}
+KindQ2m == ("r1" :> "ra" @@ "b1" :> "ba" @@ "s1" :> "rs")
+ProgQ2m == ("c1" :> <<BA("b1"), S("s1")>> @@ "c2" :> <<A("r1")>>)
+BodyQ2m == NoBody(ItemsQ2m)
+
 \* ---- Q6: suspension on a serial lane: c1 = async a; async b   c2 = suspend; resume ----
 ItemsQ6 == {"a", "b"}
 KindQ6 == ("a" :> "ra" @@ "b" :> "ra")
